@@ -25,6 +25,13 @@ pub const DEPTH_OPS: &[&str] = &[
     "get_by_path_deep",
     "get_by_path_wildcards",
     "path_exists_deep",
+    // a path as deep as the document through every other selection entry point and mode
+    "get_by_path_first_deep",
+    "get_by_path_array_deep",
+    "select_all_deep",
+    "select_first_deep",
+    "select_array_deep",
+    "select_first_wildcards",
     "parse_json_path_deep",
     "convert_to_comparable",
     "delete_by_index_deep",
@@ -59,6 +66,15 @@ pub const BIG_STACK_DEPTHS: &[u64] = &[33_000, 66_000];
 /// dev = cargo's default dev profile (unoptimised, overflow checks, debug assertions: what `cargo build` and
 /// `cargo test` give a user); checked = optimised with the same checks; shipped = release defaults.
 pub const BUILDS: &[&str] = &["dev", "checked", "shipped"];
+/// aborting = release defaults with `panic = "abort"`: `catch_unwind` does nothing there, so a panic raised (and even
+/// one swallowed) inside the library is the death of the process. Depths stay well below every recorded
+/// stack-exhaustion depth of the optimised builds, so that a death in this build is never the known finding.
+pub const ABORT_BUILD: &str = "aborting";
+pub const ABORT_DEPTHS: &[u64] = &[1, 100, 600, 2_000];
+/// The memory-limited node: a single allocation request above this (8x for the quadratic pretty printer) is what
+/// `Vec::with_capacity` turns into an abort where the allocator can refuse it (container limit, `ulimit -v`, 32 bit).
+/// The accounting allocator serves the request (untouched virtual memory) and records it.
+pub const ALLOC_LIMIT: usize = 1 << 30;
 
 pub const INDEX_OPS: &[&str] = &[
     "delete_by_index",
@@ -383,6 +399,24 @@ fn run_depth_op(op: &str, shape: &str, depth: u64) -> String {
         "path_exists_deep" => {
             let b = deep_jsonb(shape, depth);
             res_name(jsonb::path_exists(&b, deep_path(shape, depth, false)))
+        }
+        "get_by_path_first_deep" | "get_by_path_array_deep" | "select_all_deep" | "select_first_deep" | "select_array_deep" | "select_first_wildcards" => {
+            let b = deep_jsonb(shape, depth);
+            let p = deep_path(shape, depth, op == "select_first_wildcards");
+            let mut data = vec![];
+            let mut offs = vec![];
+            let r = match op {
+                "get_by_path_first_deep" => jsonb::get_by_path_first(&b, p, &mut data, &mut offs),
+                "get_by_path_array_deep" => jsonb::get_by_path_array(&b, p, &mut data, &mut offs),
+                "select_all_deep" => jp::Selector::new(p, jp::Mode::All).select(&b, &mut data, &mut offs),
+                "select_array_deep" => jp::Selector::new(p, jp::Mode::Array).select(&b, &mut data, &mut offs),
+                _ => jp::Selector::new(p, jp::Mode::First).select(&b, &mut data, &mut offs),
+            };
+            match r {
+                Ok(()) if !data.is_empty() => "completed".into(),
+                Ok(()) => "error:selected_nothing".into(),
+                Err(e) => format!("error:{}", ops::err_name(&e)),
+            }
         }
         "parse_json_path_deep" => {
             let t = deep_path_text(shape, depth);
@@ -830,7 +864,7 @@ fn index_doc(len: usize) -> MVal {
 
 /// The operation an index case denotes, over registers [array, nested-object-holding-the-array, new value].
 fn index_op(op: &str, index: i32, index2: i32) -> Op {
-    let sel = |spec: AIdx| Op::Select { v: 0, path: MPath { steps: vec![Step::Indices(vec![spec])], predicate: None }, api: SelApi::GetByPath };
+    let sel = |spec: AIdx| Op::Select { v: 0, path: MPath { steps: vec![Step::Indices(vec![spec])], predicate: None, rootless: false }, api: SelApi::GetByPath };
     match op {
         "delete_by_index" => Op::DeleteByIndex { v: 0, idx: index },
         "array_insert" => Op::ArrayInsert { v: 0, pos: index, new: 2 },
@@ -916,14 +950,26 @@ pub fn child_main(arg: &str) -> i32 {
         Case::Depth { stack, .. } | Case::Api { stack, .. } => *stack,
         Case::Index { .. } => 8 << 20,
     };
+    let alloc_limit = match &case {
+        Case::Depth { op, .. } if op == "to_pretty_string" => ALLOC_LIMIT * 8,
+        Case::Api { func, .. } if func == "to_pretty_string" => ALLOC_LIMIT * 8,
+        _ => ALLOC_LIMIT,
+    };
     let h = std::thread::Builder::new().name("case".into()).stack_size(stack as usize).spawn(move || {
-        guard(|| match &case {
+        crate::alloc::reset();
+        let r = guard(|| match &case {
             Case::Api { func, variant, shape, depth, .. } => run_api(func, variant, shape, *depth),
             Case::Depth { op, shape, depth, .. } => run_depth_op(op, shape, *depth),
             Case::Index { op, .. } if op.starts_with("special_") => run_special(op),
             Case::Index { op, index, index2, len, text, .. } if op.contains("text") || op == "get_by_index_extreme" => run_index_text_op(op, *index, *index2, *len, *text),
             Case::Index { op, index, index2, len, text, .. } => run_index_op(op, *index, *index2, *len, *text),
-        })
+        });
+        // the memory-limited node: the largest single request made while the case ran
+        let biggest = crate::alloc::max_request();
+        match r {
+            Ok(s) if biggest > alloc_limit => Ok(format!("alloc:{biggest}:{s}")),
+            r => r,
+        }
     });
     let out = match h {
         Ok(h) => h.join(),
@@ -1072,8 +1118,16 @@ impl Limits {
                 }
             }
         }
+        for op in DEPTH_OPS {
+            for shape in SHAPES {
+                for depth in ABORT_DEPTHS {
+                    v.push(Case::Depth { op: op.to_string(), shape: shape.to_string(), depth: *depth, stack: 8 << 20, build: ABORT_BUILD.to_string() });
+                }
+            }
+        }
+        let index_builds: Vec<&str> = BUILDS.iter().copied().chain([ABORT_BUILD]).collect();
         for op in INDEX_OPS.iter().filter(|o| o.starts_with("special_")) {
-            for build in BUILDS {
+            for build in &index_builds {
                 v.push(Case::Index { op: op.to_string(), index: 0, index2: 0, len: 0, text: false, build: build.to_string() });
             }
         }
@@ -1084,7 +1138,7 @@ impl Limits {
                 idxs.dedup();
                 for index in idxs {
                     for text in [false, true] {
-                        for build in BUILDS {
+                        for build in &index_builds {
                             let index2s: Vec<i32> = if op.contains("slice") { vec![i32::MIN, 0, i32::MAX] } else { vec![0] };
                             for index2 in index2s {
                                 v.push(Case::Index { op: op.to_string(), index, index2, len, text, build: build.to_string() });
@@ -1263,6 +1317,7 @@ impl Scenario for Limits {
             let key = format!("api:{func}:{variant}:{shape}");
             let (label, viol): (String, Option<Viol>) = match &out {
                 ChildOutcome::Result(r) if r.starts_with("panic:") => ("panic".into(), Some(Viol { class: format!("panic:{key}"), detail: r.clone() })),
+                ChildOutcome::Result(r) if r.starts_with("alloc:") => ("huge_allocation".into(), Some(Viol { class: format!("huge_allocation:{key}"), detail: format!("a single allocation request of {} bytes", r.split(':').nth(1).unwrap_or("?")) })),
                 ChildOutcome::Result(r) => (r.split(':').next().unwrap_or("?").to_string(), None),
                 ChildOutcome::StackOverflow => {
                     if self.baseline.get(&key).map_or(false, |b| b.iter().any(|x| x == build)) {
@@ -1301,6 +1356,15 @@ impl Scenario for Limits {
                 let _line = parts.next();
                 let msg = parts.next().unwrap_or("");
                 ("panic".into(), Some(Viol { class: format!("panic:{opname}:{what}:{file}"), detail: format!("{r} ({msg})") }))
+            }
+            (ChildOutcome::Result(r), _) if r.starts_with("alloc:") => {
+                let (opname, what) = match case {
+                    Case::Depth { op, shape, .. } => (op.clone(), shape.clone()),
+                    Case::Index { op, .. } => (op.clone(), "extreme_index".to_string()),
+                    Case::Api { func, variant, .. } => (func.clone(), variant.clone()),
+                };
+                let bytes = r.split(':').nth(1).unwrap_or("?");
+                ("huge_allocation".into(), Some(Viol { class: format!("huge_allocation:{opname}:{what}"), detail: format!("a single allocation request of {bytes} bytes: on a node whose allocator can refuse it (memory limit, 32 bit) this is an abort of the process") }))
             }
             (ChildOutcome::Result(r), _) => (r.split(':').next().unwrap_or("?").to_string() + if r.ends_with("differs_from_model") { ":differs_from_model" } else { "" }, None),
             (ChildOutcome::StackOverflow, Case::Depth { op, shape, depth, .. }) => {
